@@ -111,7 +111,7 @@ fn check_path(t: &mut Tally, input: &str) {
         }
         // "ordinary names": whether a name holding a control character (NUL, LF, ESC, C1 ...) is
         // ordinary is not decided by the statement; rejecting such a path is admissible
-        (Some(_), Err(_)) if input.chars().any(|c| c.is_control()) => t.outcome("reject/control-character-in-a-name (not constrained)"),
+        (Some(_), Err(_)) if input.chars().any(|c| c.is_control() || c.is_whitespace() || "\"'`".contains(c)) => t.outcome("reject/control-blank-or-quote-in-a-name (not constrained)"),
         (w, g) => t.violation(Violation::new(
             "path",
             case(),
@@ -171,7 +171,7 @@ fn check_depend(t: &mut Tally, pat: &str, path: &str, colons: &[usize]) {
                 other => t.violation(Violation::new("depend", case(), json!("halves parse directly"), json!(format!("{:?}", other.map(|(a, b)| (a.is_ok(), b.is_ok())))), "Depend accepted but a half does not parse on its own")),
             }
         }
-        (Some(_), Err(_)) if parts[1].chars().any(|c| c.is_control()) => t.outcome("reject/control-character-in-a-name (not constrained)"),
+        (Some(_), Err(_)) if parts[1].chars().any(|c| c.is_control() || c.is_whitespace() || "\"'`".contains(c)) => t.outcome("reject/control-blank-or-quote-in-a-name (not constrained)"),
         (w, g) => t.violation(Violation::new(
             "depend",
             case(),
@@ -209,7 +209,7 @@ fn main() {
          halves parsed directly. Non-trivial = accepted \
          paths, rejected paths with at least one '/', rejected dependencies.",
     );
-    run.assume("a name holding a control character may be rejected or accepted (if accepted, all value clauses apply); reference normaliser mc/core/src/model/pkgpath.rs; pattern validity from the composed pattern model");
+    run.assume("a name holding a control character, a blank or a quote may be rejected or accepted (if accepted, all value clauses apply); reference normaliser mc/core/src/model/pkgpath.rs; pattern validity from the composed pattern model");
 
     let n = run.pick(6, 8);
     run.bound(format!("all {} segment sequences of <= {} segments x {{relative, leading '/'}}", seqs::count(SEG.len(), n), n));
